@@ -9,7 +9,7 @@ import numpy as np
 from hypothesis import strategies as st
 
 from .. import gen
-from ..recipe import BRANCH_TABLES, FROM_TO, abbreviate, build, exc_sig, solve
+from ..recipe import PRELUDES, solve_after_prelude, BRANCH_TABLES, FROM_TO, abbreviate, build, exc_sig, solve
 from ..runner import Finding, Outcome, derive_seed, run_given
 
 RULE = ("cases = (network recipe, solver options) drawn by Hypothesis: random tree + extra/parallel edges, "
@@ -42,7 +42,9 @@ def case_strategy(draw, tier):
         from ..genheat import heat_net, heat_options
         rec = draw(heat_net(max_n=5 if tier == "quick" else 10, allow_makeup=True))
         opts = draw(heat_options())
-    return {"recipe": rec, "options": opts}
+    # one case in three is calculated on a net object with a history (see recipe.solve_after_prelude)
+    prelude = draw(st.sampled_from([None, None, None, None] + PRELUDES[:3] * 2 + PRELUDES[3:]))
+    return {"recipe": rec, "options": opts, "prelude": prelude}
 
 
 def balance(net, rec):
@@ -159,8 +161,7 @@ def balance(net, rec):
 
 def evaluate(case):
     rec, opts = case["recipe"], case["options"]
-    net = build(rec)
-    r = solve(net, **opts)
+    net, r = solve_after_prelude(rec, opts, case.get("prelude"))
     if not r.ok:
         return Outcome(discard=r.status if r.status != "crash" else "crash:" + exc_sig(r.exc))
     findings, labels, stats = balance(net, rec)
@@ -180,6 +181,7 @@ def evaluate(case):
     mesh = len(edges) >= len(rec["junction"])
     labels |= {"gas" if net.fluid.is_gas else "liquid", "numba" if opts.get("use_numba", True) else "numpy",
                opts.get("friction_model", "nikuradse"), "mode:" + opts.get("mode", "hydraulics")}
+    labels.add("history:" + str(case.get("prelude")))
     if mesh:
         labels.add("mesh")
     if tabs.count("ext_grid") > 1:
